@@ -28,6 +28,8 @@ const (
 	kRrtype   = "comment-resets-rrtype"
 	kDirArg   = "directive-arg-keyword"
 	kEscOnly  = "escaped-only-token"
+	kMerge    = "paren-newline-merges-tokens"
+	kCom511   = "comment-511-in-parens"
 )
 
 // ---------------------------------------------------------------------------------------------
@@ -477,10 +479,7 @@ func evalZone(cp *zoneCase, den *zm.Denotation) error {
 	for i, r := range c.Renderings {
 		got, perr := parseZone(&c, r.Files, len(den.Recs)+8)
 		if den.Err == "" {
-			if perr != nil {
-				return pbt.Errf("rendering %d: parser reports %v after %d of %d records\n%s", i, perr, len(got), len(den.Recs), showRendering(&c, r))
-			}
-			if err := zm.Compare(got, den.Recs); err != nil {
+			if err := zm.CompareOutcome(got, perr, den); err != nil {
 				return pbt.Errf("rendering %d: %v\n%s", i, err, showRendering(&c, r))
 			}
 		} else {
@@ -520,7 +519,7 @@ func bucket(n int) string {
 // generators
 
 func genOpts() zm.GenOpts {
-	o := zm.GenOpts{MaxItems: 10, HostileLabels: true, OnExcluded: pbt.Excluded}
+	o := zm.GenOpts{MaxItems: 10, HostileLabels: true, OnExcluded: pbt.Excluded, UncertainTTL: true, MissingTTLShape: true}
 	if pbt.Thorough() {
 		o.MaxItems = 16
 	}
@@ -538,7 +537,8 @@ func genOpts() zm.GenOpts {
 
 func renderOpts() zm.RenderOpts {
 	return zm.RenderOpts{ForceGenerateTTL: pbt.Known(kGenTTL), BlankBeforeComment: pbt.Known(kComment), OnExcluded: pbt.Excluded,
-		NoCommentBeforeKeywordRdata: pbt.Known(kRrtype), KeywordLike: keywordLike, AvoidEscapedOnly: pbt.Known(kEscOnly)}
+		NoCommentBeforeKeywordRdata: pbt.Known(kRrtype), KeywordLike: keywordLike, AvoidEscapedOnly: pbt.Known(kEscOnly),
+		BlankWithNewline: pbt.Known(kMerge), NoComment511: pbt.Known(kCom511), KeepMissingTTLShape: true}
 }
 
 // keywordLike: the token spells a type or class keyword for the library's lexer. Used only to
@@ -925,6 +925,33 @@ func init() {
 			return nil
 		}
 		c := zoneCase{Zone: *z, OriginText: "example.", Renderings: []rendering{{Files: map[string]string{"e.db": "a 300 A 192.0.2.1 \n\\; 300 A 192.0.2.2\n"}}}}
+		return oneLine(evalZone(&c, den))
+	})
+}
+
+func init() {
+	mx := func() (*zm.Zone, *zm.Denotation) {
+		z := &zm.Zone{FileName: "p.db", HasOrigin: true, Origin: [][]byte{[]byte("example")}, HasDefTTL: true, DefTTL: 5}
+		z.Items = []zm.Item{{Kind: zm.KRec, Owner: zm.MName{Kind: zm.Rel, Labels: [][]byte{[]byte("a")}},
+			RD: zm.RData{Type: zm.TMX, Nums: []uint32{10}, Names: []zm.MName{{Kind: zm.Rel, Labels: [][]byte{[]byte("mail")}}}}}}
+		den, _ := zm.Denote(z)
+		return z, den
+	}
+	// inside parentheses a line break that stands directly between two tokens joins them
+	pbt.Probe(kMerge, func() error {
+		z, den := mx()
+		c := zoneCase{Zone: *z, OriginText: "example.", Renderings: []rendering{
+			{Files: map[string]string{"p.db": "a MX ( 10 mail )\n"}},
+			{Files: map[string]string{"p.db": "a MX (\n10\nmail\n)\n"}},
+		}}
+		return oneLine(evalZone(&c, den))
+	})
+	// a second comment inside parentheses fails when the first one has exactly 511 characters
+	pbt.Probe(kCom511, func() error {
+		z, den := mx()
+		c := zoneCase{Zone: *z, OriginText: "example.", Renderings: []rendering{
+			{Files: map[string]string{"p.db": "a MX ( 10 ;" + strings.Repeat("c", 510) + "\n mail ; second\n )\n"}},
+		}}
 		return oneLine(evalZone(&c, den))
 	})
 }
